@@ -320,4 +320,292 @@ theorem dropModule_spec {F : Facts} (hG : Good F) (k : Nat) (s : St) (hm : s.map
   simp [St.relCount, dropFields, dropField, hw, hkc, hkf, hm, freeCode_mapped, freeCode_faults, freeCode_count,
     dropScriptConsts_faults, Nat.add_comm, Nat.add_left_comm, Nat.add_assoc]
 
+/-! ### the invariant -/
+
+/-- number of owners of Module k: live packages and live handles -/
+def owners (s : St) (k : Nat) : Nat := s.pkgs.count k + s.hs.countP (fun h => h.k == k)
+
+def constPred (s : St) (r : Nat) : Nat → Bool := fun k => (s.info k).keepConst && (s.info k).rt == r
+def closPred (s : St) (r : Nat) : Nat → Bool := fun k => (s.info k).keepClos && (s.info k).rt == r
+
+/-- everything except "strong count = number of owners" (stated on the explicit counts only) -/
+structure InvCore (s : St) : Prop where
+  holds : ∀ h ∈ s.hs, h.holds = true
+  alive_cnt : ∀ k, s.alive.count k = if 0 < s.strong k then 1 else 0
+  constRc_eq : ∀ r, s.constRc r = s.rtConst.count r + s.alive.countP (constPred s r)
+  closRc_eq : ∀ r, s.closRc r = s.rtClos.count r + s.alive.countP (closPred s r)
+  const_rel : ∀ r, s.relCount (.regConst r) = if r ∈ s.constEver ∧ s.constRc r = 0 then 1 else 0
+  const_ever : ∀ r, r ∉ s.constEver → s.constRc r = 0
+  clos_rel : ∀ r, s.relCount (.closure r) = if r ∈ s.closEver ∧ s.closRc r = 0 then 1 else 0
+  clos_ever : ∀ r, r ∉ s.closEver → s.closRc r = 0
+  code_rel : ∀ k, s.relCount (.code k) = if k ∈ s.compiled ∧ s.strong k = 0 then 1 else 0
+  mapped_eq : ∀ k, s.mapped k = decide (0 < s.strong k)
+  compiled_strong : ∀ k, k ∉ s.compiled → s.strong k = 0
+  sc_rel : ∀ k c, s.relCount (.scriptConst k c)
+      = if k ∈ s.compiled ∧ s.strong k = 0 ∧ c < (s.info k).nconst then 1 else 0
+  no_fault : s.faults = []
+  expect_ok : ∀ h ∈ s.hs, h.expect = .ok (s.info h.k).value
+  uses : ∀ k, ((s.info k).useConst = true → (s.info k).keepConst = true)
+      ∧ ((s.info k).useClos = true → (s.info k).keepClos = true)
+
+structure Inv (s : St) : Prop extends InvCore s where
+  strong_eq : ∀ k, s.strong k = owners s k
+
+theorem inv_init : Inv {} := by
+  constructor
+  · constructor <;> simp [St.relCount]
+  · intro k; simp [owners]
+
+/-- an alive module with a positive count -/
+theorem InvCore.mem_alive {s : St} (h : InvCore s) {k : Nat} (hk : 0 < s.strong k) : k ∈ s.alive := by
+  have := h.alive_cnt k
+  simp only [hk, if_true] at this
+  exact List.count_pos_iff.1 (by omega)
+
+theorem InvCore.mem_compiled {s : St} (h : InvCore s) {k : Nat} (hk : 0 < s.strong k) : k ∈ s.compiled := by
+  apply Classical.byContradiction
+  intro hn
+  have := h.compiled_strong k hn
+  omega
+
+/-- dropping one `Arc` of a module that has at least one -/
+theorem decModule_inv {F : Facts} (hG : Good F) (s : St) (k : Nat) (hc : InvCore s) (hk : 0 < s.strong k) :
+    InvCore (decModule F k s) ∧ (decModule F k s).strong = upd s.strong k (s.strong k - 1)
+      ∧ (decModule F k s).pkgs = s.pkgs ∧ (decModule F k s).hs = s.hs := by
+  unfold decModule
+  by_cases h1 : s.strong k - 1 = 0
+  · -- the last owner: the module is dropped
+    simp only [h1, if_true]
+    have hs1 : s.strong k = 1 := by omega
+    have hm : ({ s with strong := upd s.strong k 0 } : St).mapped k = true := by
+      show s.mapped k = true
+      rw [hc.mapped_eq k]; simpa using hk
+    have D := dropModule_spec hG k { s with strong := upd s.strong k 0 } hm
+    generalize dropModule F k { s with strong := upd s.strong k 0 } = s' at D ⊢
+    obtain ⟨d_rts, d_built, d_rtConst, d_rtClos, d_constEver, d_closEver, d_compiled, d_info, d_strong, d_pkgs,
+      d_hs, d_constRc, d_closRc, d_mapped, d_alive, d_faults, d_rel⟩ := D
+    simp only [St.relCount] at d_rel
+    dsimp only at d_rts d_built d_rtConst d_rtClos d_constEver d_closEver d_compiled d_info d_strong d_pkgs d_hs d_constRc d_closRc d_mapped d_alive d_faults d_rel
+    have hcp : ∀ r, constPred s' r = constPred s r := by
+      intro r; funext j; simp [constPred, d_info]
+    have hfp : ∀ r, closPred s' r = closPred s r := by
+      intro r; funext j; simp [closPred, d_info]
+    have hal : k ∈ s.alive := hc.mem_alive hk
+    have hcomp : k ∈ s.compiled := hc.mem_compiled hk
+    refine ⟨?_, d_strong, d_pkgs, d_hs⟩
+    constructor
+    · intro h hh; rw [d_hs] at hh; exact hc.holds h hh
+    · intro j
+      rw [d_alive, d_strong]
+      by_cases hj : j = k
+      · subst hj
+        have := hc.alive_cnt j
+        simp only [hk, if_true] at this
+        simp [upd_same, List.count_erase_self, this]
+      · rw [upd_other _ _ _ _ hj, List.count_erase_of_ne hj]; exact hc.alive_cnt j
+    · intro r
+      rw [d_constRc, d_rtConst, d_alive, hcp]
+      have e := countP_erase_add (constPred s r) s.alive k hal
+      have c := hc.constRc_eq r
+      by_cases hkc : (s.info k).keepConst = true
+      · by_cases hr : r = (s.info k).rt
+        · subst hr
+          have hp : constPred s (s.info k).rt k = true := by simp [constPred, hkc]
+          simp only [hp, if_true] at e
+          simp only [hkc, if_true, upd_same]
+          omega
+        · have hp : constPred s r k = false := by
+            simp only [constPred, hkc, Bool.true_and, beq_eq_false_iff_ne]; exact fun e => hr e.symm
+          simp only [hp, Bool.false_eq_true, if_false] at e
+          simp only [hkc, if_true, upd_other _ _ _ _ hr]
+          omega
+      · have hkc' : (s.info k).keepConst = false := by simpa using hkc
+        have hp : constPred s r k = false := by simp [constPred, hkc']
+        simp only [hp, Bool.false_eq_true, if_false] at e
+        simp only [hkc', Bool.false_eq_true, if_false]
+        omega
+    · intro r
+      rw [d_closRc, d_rtClos, d_alive, hfp]
+      have e := countP_erase_add (closPred s r) s.alive k hal
+      have c := hc.closRc_eq r
+      by_cases hkc : (s.info k).keepClos = true
+      · by_cases hr : r = (s.info k).rt
+        · subst hr
+          have hp : closPred s (s.info k).rt k = true := by simp [closPred, hkc]
+          simp only [hp, if_true] at e
+          simp only [hkc, if_true, upd_same]
+          omega
+        · have hp : closPred s r k = false := by
+            simp only [closPred, hkc, Bool.true_and, beq_eq_false_iff_ne]; exact fun e => hr e.symm
+          simp only [hp, Bool.false_eq_true, if_false] at e
+          simp only [hkc, if_true, upd_other _ _ _ _ hr]
+          omega
+      · have hkc' : (s.info k).keepClos = false := by simpa using hkc
+        have hp : closPred s r k = false := by simp [closPred, hkc']
+        simp only [hp, Bool.false_eq_true, if_false] at e
+        simp only [hkc', Bool.false_eq_true, if_false]
+        omega
+    · -- const_rel
+      intro r
+      simp only [St.relCount]
+      rw [d_rel, d_constRc, d_constEver]
+      have c := hc.const_rel r
+      simp only [St.relCount] at c
+      have ce := hc.const_ever r
+      have e := countP_erase_add (constPred s (s.info k).rt) s.alive k hal
+      have cq := hc.constRc_eq (s.info k).rt
+      simp only [scHit, reduceCtorEq, if_false, and_false, Nat.add_zero]
+      by_cases hkc : (s.info k).keepConst = true
+      · have hp : constPred s (s.info k).rt k = true := by simp [constPred, hkc]
+        simp only [hp, if_true] at e
+        by_cases hr : r = (s.info k).rt
+        · subst hr
+          have hpos : 0 < s.constRc (s.info k).rt := by omega
+          have hev : (s.info k).rt ∈ s.constEver := by
+            apply Classical.byContradiction; intro hn; have := ce hn; omega
+          have hne : ¬ s.constRc (s.info k).rt = 0 := by omega
+          simp only [hev, hne, and_false, if_false] at c
+          simp only [hkc, if_true, upd_same, true_and, and_true, c, Nat.zero_add, hev]
+        · have hne : ¬ (Res.regConst r = Res.regConst (s.info k).rt) := by simpa using hr
+          simp only [hkc, if_true, upd_other _ _ _ _ hr, hne, and_false, if_false, Nat.add_zero]
+          exact c
+      · have hkc' : (s.info k).keepConst = false := by simpa using hkc
+        simp only [hkc', Bool.false_eq_true, if_false, false_and, Nat.add_zero]
+        exact c
+    · intro r hr
+      rw [d_constEver] at hr
+      rw [d_constRc]
+      have := hc.const_ever r hr
+      split
+      · by_cases e : r = (s.info k).rt
+        · subst e; rw [upd_same]; omega
+        · rw [upd_other _ _ _ _ e]; exact this
+      · exact this
+    · -- clos_rel
+      intro r
+      simp only [St.relCount]
+      rw [d_rel, d_closRc, d_closEver]
+      have c := hc.clos_rel r
+      simp only [St.relCount] at c
+      have ce := hc.clos_ever r
+      have e := countP_erase_add (closPred s (s.info k).rt) s.alive k hal
+      have cq := hc.closRc_eq (s.info k).rt
+      simp only [scHit, reduceCtorEq, if_false, and_false, Nat.add_zero]
+      by_cases hkc : (s.info k).keepClos = true
+      · have hp : closPred s (s.info k).rt k = true := by simp [closPred, hkc]
+        simp only [hp, if_true] at e
+        by_cases hr : r = (s.info k).rt
+        · subst hr
+          have hpos : 0 < s.closRc (s.info k).rt := by omega
+          have hev : (s.info k).rt ∈ s.closEver := by
+            apply Classical.byContradiction; intro hn; have := ce hn; omega
+          have hne : ¬ s.closRc (s.info k).rt = 0 := by omega
+          simp only [hev, hne, and_false, if_false] at c
+          simp only [hkc, if_true, upd_same, true_and, and_true, c, Nat.zero_add, hev]
+        · have hne : ¬ (Res.closure r = Res.closure (s.info k).rt) := by simpa using hr
+          simp only [hkc, if_true, upd_other _ _ _ _ hr, hne, and_false, if_false, Nat.add_zero]
+          exact c
+      · have hkc' : (s.info k).keepClos = false := by simpa using hkc
+        simp only [hkc', Bool.false_eq_true, if_false, false_and, Nat.add_zero]
+        exact c
+    · intro r hr
+      rw [d_closEver] at hr
+      rw [d_closRc]
+      have := hc.clos_ever r hr
+      split
+      · by_cases e : r = (s.info k).rt
+        · subst e; rw [upd_same]; omega
+        · rw [upd_other _ _ _ _ e]; exact this
+      · exact this
+    · -- code_rel
+      intro j
+      simp only [St.relCount]
+      rw [d_rel, d_compiled, d_strong]
+      have c := hc.code_rel j
+      simp only [St.relCount] at c
+      simp only [scHit, reduceCtorEq, and_false, if_false, Nat.add_zero]
+      by_cases hj : j = k
+      · subst hj
+        have hne : ¬ s.strong j = 0 := by omega
+        simp only [hne, and_false, if_false] at c
+        simp [upd_same, hcomp, c]
+      · have : ¬ (Res.code j = Res.code k) := by simpa using hj
+        simp only [this, if_false, Nat.add_zero, upd_other _ _ _ _ hj]
+        exact c
+    · intro j
+      rw [d_mapped, d_strong]
+      by_cases hj : j = k
+      · subst hj; simp [upd_same]
+      · rw [upd_other _ _ _ _ hj, upd_other _ _ _ _ hj]; exact hc.mapped_eq j
+    · intro j hj
+      rw [d_compiled] at hj
+      rw [d_strong]
+      by_cases e : j = k
+      · subst e; rw [upd_same]
+      · rw [upd_other _ _ _ _ e]; exact hc.compiled_strong j hj
+    · -- sc_rel
+      intro j c
+      simp only [St.relCount]
+      rw [d_rel, d_compiled, d_strong, d_info]
+      have cc := hc.sc_rel j c
+      simp only [St.relCount] at cc
+      simp only [reduceCtorEq, and_false, if_false, Nat.add_zero]
+      by_cases hj : j = k
+      · subst hj
+        have hne : ¬ s.strong j = 0 := by omega
+        simp only [hne, false_and, and_false, if_false] at cc
+        simp [upd_same, hcomp, cc, scHit]
+      · simp only [scHit, hj, false_and, if_false, Nat.add_zero, upd_other _ _ _ _ hj]
+        exact cc
+    · rw [d_faults]; exact hc.no_fault
+    · intro h hh; rw [d_hs] at hh; rw [d_info]; exact hc.expect_ok h hh
+    · intro j; rw [d_info]; exact hc.uses j
+  · -- other owners remain
+    simp only [h1, if_false]
+    have hpos : 0 < s.strong k - 1 := by omega
+    refine ⟨?_, by trivial, by trivial, by trivial⟩
+    constructor
+    · exact hc.holds
+    · intro j
+      show s.alive.count j = if 0 < upd s.strong k (s.strong k - 1) j then 1 else 0
+      by_cases hj : j = k
+      · subst hj; rw [upd_same]; have := hc.alive_cnt j; simp only [hk, if_true] at this; simp [hpos, this]
+      · rw [upd_other _ _ _ _ hj]; exact hc.alive_cnt j
+    · exact hc.constRc_eq
+    · exact hc.closRc_eq
+    · exact hc.const_rel
+    · exact hc.const_ever
+    · exact hc.clos_rel
+    · exact hc.clos_ever
+    · intro j
+      show s.relCount (.code j) = if j ∈ s.compiled ∧ upd s.strong k (s.strong k - 1) j = 0 then 1 else 0
+      by_cases hj : j = k
+      · subst hj; rw [upd_same, hc.code_rel j]
+        have a : ¬ s.strong j = 0 := by omega
+        have b : ¬ s.strong j - 1 = 0 := by omega
+        simp [a, b]
+      · rw [upd_other _ _ _ _ hj]; exact hc.code_rel j
+    · intro j
+      show s.mapped j = decide (0 < upd s.strong k (s.strong k - 1) j)
+      by_cases hj : j = k
+      · subst hj; rw [upd_same, hc.mapped_eq j]; simp [hk, hpos]
+      · rw [upd_other _ _ _ _ hj]; exact hc.mapped_eq j
+    · intro j hj
+      show upd s.strong k (s.strong k - 1) j = 0
+      by_cases e : j = k
+      · subst e; have := hc.compiled_strong j hj; omega
+      · rw [upd_other _ _ _ _ e]; exact hc.compiled_strong j hj
+    · intro j c
+      show s.relCount (.scriptConst j c)
+        = if j ∈ s.compiled ∧ upd s.strong k (s.strong k - 1) j = 0 ∧ c < (s.info j).nconst then 1 else 0
+      by_cases hj : j = k
+      · subst hj; rw [upd_same, hc.sc_rel j c]
+        have a : ¬ s.strong j = 0 := by omega
+        have b : ¬ s.strong j - 1 = 0 := by omega
+        simp [a, b]
+      · rw [upd_other _ _ _ _ hj]; exact hc.sc_rel j c
+    · exact hc.no_fault
+    · exact hc.expect_ok
+    · exact hc.uses
+
 end RotoV.Lifetime
